@@ -1,12 +1,14 @@
 #!/bin/sh
-# usage: tools/try_patch.sh <patch.diff> C01 C04 ...   — apply to /repo, run the quick checks, undo.
+# usage: tools/try_patch.sh <patch.diff> C01 C04 ...
+# Applies the patch in a scratch worktree of /repo (never in /repo itself, so background sweeps are not disturbed),
+# points the checks at it with KNEE_REPO, runs the quick checks, removes the worktree.
 P="$1"; shift
-cd /repo || exit 2
-git diff --quiet || { echo "repo dirty"; exit 2; }
-git apply "$P" || { echo "patch does not apply"; exit 2; }
+W=$(mktemp -d /tmp/knee-try-XXXXXX); rmdir "$W"
+git -C /repo worktree add -q --detach "$W" HEAD || exit 2
+( cd "$W" && git apply "$P" ) || { echo "patch does not apply"; git -C /repo worktree remove --force "$W"; exit 2; }
 cd /verif
 for c in "$@"; do
-  out=$(bin/check "$c" --tier quick 2>&1); rc=$?
-  echo "== $c rc=$rc :: $(echo "$out" | grep -m1 -E 'VIOLATION|KNOWN-FINDING|INFRA' )"
+  out=$(KNEE_REPO="$W" bin/check "$c" --tier quick 2>&1); rc=$?
+  echo "== $c rc=$rc :: $(echo "$out" | grep -m1 -E 'VIOLATION|INFRA' )"
 done
-git -C /repo checkout -- . 
+git -C /repo worktree remove --force "$W"
